@@ -1,4 +1,11 @@
-"""CLI: ./check Cxx --tier quick|thorough   (exit 0 held / 1 violation / 2 analysis error)."""
+"""CLI: ./check Cxx --tier quick|thorough
+
+exit 0  the property held on everything that was decided (rules that met an idiom they do not read print an
+        `UNDECIDED property=… rule: reason` line and are listed in the evidence; VERIF_STRICT=1 turns them into exit 2)
+exit 1  a violation (line `VIOLATION property=<id> replay=<path>`)
+exit 2  the analysis itself is broken: an anchor vanished, a rule matched fewer instances than its floor or none
+        at all, the mutation matrix failed, the checker crashed (line `ANALYSIS-ERROR property=<id> …`)
+"""
 from __future__ import annotations
 
 import argparse
@@ -113,11 +120,14 @@ def main(argv: T.Optional[T.List[str]] = None) -> int:
             print(f'  {f.module}:{f.line} in {f.function} [{f.rule}] {f.message}')
             print(f'      construct: {f.construct[:200]}')
             print(f'VIOLATION property={prop} replay={path}')
-    if chk.errors:
-        for e in chk.errors:
-            print(f'ANALYSIS-ERROR property={prop} {e}')
-        if rc == 0:
-            rc = 2
+    strict = os.environ.get('VERIF_STRICT', '') not in ('', '0')
+    hard = [e for e in chk.errors if e not in chk.undecided]
+    for e in chk.undecided:
+        print(f'UNDECIDED property={prop} {e}')
+    for e in hard:
+        print(f'ANALYSIS-ERROR property={prop} {e}')
+    if rc == 0 and (hard or (strict and chk.undecided)):
+        rc = 2
 
     if not args.no_evidence and not args.rule:
         os.makedirs(os.path.join(VERIF, 'evidence'), exist_ok=True)
@@ -128,7 +138,7 @@ def main(argv: T.Optional[T.List[str]] = None) -> int:
     tot_o = sum(c.obligations for c in chk.ctxs)
     tot_d = sum(c.discharged for c in chk.ctxs)
     print(f'{prop} tier={args.tier}: rules={len(chk.ctxs)} obligations={tot_o} discharged={tot_d} '
-          f'known={len(known)} violations={len(new)} analysis_errors={len(chk.errors)} -> exit {rc}')
+          f'known={len(known)} violations={len(new)} undecided_rules={len(chk.undecided)} analysis_errors={len(hard)} -> exit {rc}')
     return rc
 
 
